@@ -1,10 +1,17 @@
 package core
 
 import (
+	"github.com/jsightapi/jsight-api-core/directive"
 	"github.com/jsightapi/jsight-api-core/jerr"
 )
 
 func (core *JApiCore) compileCore() *jerr.JApiError {
+	// The MACRO directives are about to be taken out of the list, after that a
+	// document which begins with a MACRO can't be told from a correct one.
+	if len(core.directives) != 0 && core.directives[0].Type() == directive.Macro {
+		return core.directives[0].KeywordError(jerr.DirectiveJSIGHTShouldBeTheFirst)
+	}
+
 	if je := core.collectMacro(); je != nil {
 		return je
 	}
